@@ -371,6 +371,36 @@ def run(ctx: Any, prog: Program) -> None:
                       'is not written, so the parsed-back definition has fewer helpers than the exported one', func='EntityDef.export', text=f'skip under `{" and ".join(U(t)[:30] for t in tests)}` is the documented one')
         ctx.shape('C16.Q9', bool(skips), fgd, lp9, 'the extension-helper skip was not found in the helper loop', func='EntityDef.export', text='extension helpers skipped without custom syntax')
 
+    # Q10: every comma-separated piece of a helper's argument text is an argument.  `helper()` gives the single blank piece `['']`, which is
+    # reduced to no arguments; blank pieces among others (`line(255 255 255, targetname, )`) are arguments the exporter wrote and have to stay,
+    # otherwise the arguments behind them shift (or a fixed-arity helper refuses text the library produced).
+    ctx.rule('C16.Q10', 'EntityDef.parse keeps every comma-separated helper argument, blank ones included', floor=1)
+    ep10 = fgd.func('EntityDef.parse')
+    splits10 = [c for c in ast.walk(ep10) if isinstance(c, ast.Call) and isinstance(c.func, ast.Attribute) and c.func.attr == 'split' and c.args and isinstance(c.args[0], ast.Constant) and c.args[0].value == ',']
+    ctx.shape('C16.Q10', len(splits10) >= 1, fgd, ep10, 'the split of the helper argument text on commas was not found in EntityDef.parse', func='EntityDef.parse', text='helper arguments split on commas')
+    for sp10 in splits10:
+        comp10 = next((a for a in _anc16(fgd, sp10, ep10) if isinstance(a, (ast.ListComp, ast.GeneratorExp))), None)
+        filt10 = [i_ for g in comp10.generators for i_ in g.ifs] if comp10 is not None else []
+        filt10 += [c for c in _anc16(fgd, sp10, ep10) if isinstance(c, ast.Call) and dotted(c.func) == 'filter']
+        ctx.check('C16.Q10', not filt10, fgd, filt10[0] if filt10 else sp10, f'EntityDef.parse drops helper arguments for which `{U(filt10[0])[:40] if filt10 else ""}` is false: a blank argument between others is an argument '
+                  '(the exporter writes it), dropping it shifts the following ones - the parsed helper differs from the exported one, or a fixed-arity helper raises on text the library wrote', func='EntityDef.parse',
+                  text='helper arguments are not filtered')
+    # Q5 (whole database): get_fgd() builds the FGD from the complete entity map.  The block table is consumed by lazy parsing - a block
+    # decoded for an earlier engine_def() lookup has been replaced by an empty entry - so an FGD assembled from the blocks' class lists lacks
+    # every entity of those blocks.
+    gf10 = edb.func('EngineDB.get_fgd') if 'edb' in dir() else prog.module('_engine_db').func('EngineDB.get_fgd')
+    edbm = prog.module('_engine_db')
+    st10 = [a for a in ast.walk(gf10) if isinstance(a, ast.Assign) and any(isinstance(t, ast.Subscript) and isinstance(t.value, ast.Attribute) and t.value.attr == 'entities' for t in a.targets)]
+    ctx.shape('C16.Q5', len(st10) >= 1, edbm, gf10, 'get_fgd stores the entities into the FGD', func='EngineDB.get_fgd', text='get_fgd fills FGD.entities')
+    for a10 in st10:
+        lps = [l for l in _anc16(edbm, a10, gf10) if isinstance(l, ast.For)]
+        from_map = any('ent_map' in U(l.iter) for l in lps)
+        from_blocks = any('unparsed' in U(l.iter) for l in lps)
+        if not lps:
+            continue            # a single named entity stored besides the loop
+        ctx.check('C16.Q5', from_map and not from_blocks, edbm, a10, f'get_fgd fills FGD.entities inside a loop over `{U(lps[0].iter)[:50]}`: blocks that an earlier engine_def() lookup has already decoded are blank in the block table, so '
+                  'their entities are missing from the whole database (and the incomplete FGD is cached)', func='EngineDB.get_fgd', text='get_fgd takes the entities from the complete map')
+
     # Q3 (record-local values): every argument of a record constructor inside a parse loop is assigned in the same iteration before it is used
     ctx.rule('C16.Q7', 'values put into a parsed record (Resource / KVDef / IODef) are assigned in the iteration that builds the record, never carried over from the previous one', floor=1)
     RECORDS = {'Resource', 'KVDef', 'IODef'}
@@ -1158,6 +1188,8 @@ def run(ctx: Any, prog: Program) -> None:
 
 
 MUTANTS: List[Dict[str, Any]] = [
+    {'id': 'helper_blank_args_dropped', 'file': 'fgd.py', 'find': "                args = [\n                    arg.strip()\n                    for arg in\n                    token_value.split(',')\n                ]", 'replace': "                args = [\n                    arg.strip()\n                    for arg in\n                    token_value.split(',')\n                    if arg.strip()\n                ]", 'expect': 'C16.Q10', 'note': 'round 12'},
+    {'id': 'get_fgd_from_block_lists', 'file': '_engine_db.py', 'find': "            for clsname, ent in self.ent_map.items():\n                assert isinstance(ent, EntityDef), (clsname, ent)\n                self.fgd.entities[clsname] = ent", 'replace': "            for classes, data in self.unparsed:\n                for clsname in classes:\n                    ent = self.ent_map[clsname.casefold()]\n                    assert isinstance(ent, EntityDef), (clsname, ent)\n                    self.fgd.entities[clsname.casefold()] = ent", 'expect': 'C16.Q5', 'note': 'round 12'},
     {'id': 'kv_order_keeps_capitals', 'file': 'fgd.py', 'find': "                    entity.kv_order.append(kv_def.name.casefold())\n                kv_tags_map[tags] = kv_def\n", 'replace': "                    entity.kv_order.append(kv_def.name)\n                kv_tags_map[tags] = kv_def\n", 'expect': 'C16.Q8', 'note': 'round 11'},
     {'id': 'export_skips_unknown_helpers', 'file': 'fgd.py', 'find': "            if helper.IS_EXTENSION and not custom_syntax:\n                continue\n            if isinstance(helper, HelperHalfGridSnap):", 'replace': "            if helper.IS_EXTENSION and not custom_syntax:\n                continue\n            if isinstance(helper, UnknownHelper) and not args:\n                continue\n            if isinstance(helper, HelperHalfGridSnap):", 'expect': 'C16.Q9', 'note': 'round 11'},
     {'id': 'choice_values_bare_when_all_digits', 'file': 'fgd.py', 'find': "                    try:\n                        float(value)\n                    except ValueError:\n                        value = f'\"{_fgd_escape(custom_syntax, value)}\"'", 'replace': "                    if not all(x in '0123456789-' for x in value):\n                        value = f'\"{_fgd_escape(custom_syntax, value)}\"'", 'expect': 'C16.Q4'},
